@@ -432,6 +432,10 @@ func valBindings(x interface{}) (m map[string]*val.Val, fail string) {
 }
 
 func envcheckCase(r *rand.Rand, a, b envForm, tags []string) Case {
+	if guardBegin("compile against " + a.human + "  ||  invoke with " + b.human) {
+		return crashCase("compile against " + a.human + "  ||  invoke with " + b.human)
+	}
+	defer guardEnd()
 	c := Case{Human: "compile against " + a.human + "  ||  invoke with " + b.human, Tags: tags, Nontriv: true}
 	if len(c.Human) > 1500 {
 		c.Human = c.Human[:1500] + "…"
